@@ -67,7 +67,7 @@ def refUnpackMint (b : List Nat) : Except PackErr Mint :=
   | none => .error .invalidAccountData
   | some mintAuthority =>
     let supply := rdLE (slice b 36 8)
-    let decimals := (slice b 44 1).headD 0
+    let decimals := (slice b 44 1).head?.getD 0
     match slice b 45 1 with
     | [0] =>
       -- `unpack_from_slice` succeeds if the freeze tag is valid; then `unpack` refuses: not initialized
@@ -87,7 +87,7 @@ def refUnpackAccount (b : List Nat) : Except PackErr TokenAcc :=
   match refCOptKey (slice b 72 36) with
   | none => .error .invalidAccountData
   | some delegate =>
-    let state := (slice b 108 1).headD 0
+    let state := (slice b 108 1).head?.getD 0
     if ¬ state ≤ 2 then .error .invalidAccountData else
     match refCOptU64 (slice b 109 12) with
     | none => .error .invalidAccountData
@@ -147,12 +147,12 @@ def structSize (fields : List (SName × STy)) : Nat := (fields.map (fun f => f.2
 def readField : STy → List Nat → Option SVal
   | .key, c => some (.key c)
   | .u64, c => some (.num (rdLE c))
-  | .u8, c => some (.num (c.headD 0))
+  | .u8, c => some (.num (c.head?.getD 0))
   | .bool, c => match c with
     | [0] => some (.flag false)
     | [1] => some (.flag true)
     | _ => none
-  | .state, c => if (c.headD 0) ∈ Generated.accountStateValid then some (.num (c.headD 0)) else none
+  | .state, c => if (c.head?.getD 0) ∈ Generated.accountStateValid then some (.num (c.head?.getD 0)) else none
   | .podOptKey, c => some (.optKey (podInto 32 c))
   | .podOptU64, c => some (.optNum ((podInto 8 c).map rdLE))
 
@@ -177,13 +177,13 @@ def fwView (fields : List (SName × STy)) (len : Nat) (initialized : List (SName
 
 /-- `data_unchecked()?.is_initialized`. -/
 def mintInitialized (vs : List (SName × SVal)) : Bool :=
-  match vs.lookup .is_initialized with
+  match assoc .is_initialized vs with
   | some (.flag b) => b
   | _ => false
 
 /-- `data_unchecked()?.state != AccountState::Uninitialized`. -/
 def tokenInitialized (vs : List (SName × SVal)) : Bool :=
-  match vs.lookup .state with
+  match assoc .state vs with
   | some (.num s) => s != Generated.accountStateUninitialized
   | _ => false
 
@@ -194,15 +194,15 @@ def fwTokenView (ownerOk : Bool) (b : List Nat) : Except ViewErr (List (SName ×
   fwView Generated.tokenFields Generated.tokenLen tokenInitialized ownerOk b
 
 def getKey (vs : List (SName × SVal)) (n : SName) : Key :=
-  match vs.lookup n with | some (.key k) => k | _ => []
+  match assoc n vs with | some (.key k) => k | _ => []
 def getNum (vs : List (SName × SVal)) (n : SName) : Nat :=
-  match vs.lookup n with | some (.num k) => k | _ => 0
+  match assoc n vs with | some (.num k) => k | _ => 0
 def getFlag (vs : List (SName × SVal)) (n : SName) : Bool :=
-  match vs.lookup n with | some (.flag k) => k | _ => false
+  match assoc n vs with | some (.flag k) => k | _ => false
 def getOptKey (vs : List (SName × SVal)) (n : SName) : Option Key :=
-  match vs.lookup n with | some (.optKey k) => k | _ => none
+  match assoc n vs with | some (.optKey k) => k | _ => none
 def getOptNum (vs : List (SName × SVal)) (n : SName) : Option Nat :=
-  match vs.lookup n with | some (.optNum k) => k | _ => none
+  match assoc n vs with | some (.optNum k) => k | _ => none
 
 /-- The view's fields under the reference's field names. -/
 def viewMint (vs : List (SName × SVal)) : Mint :=
